@@ -331,7 +331,11 @@ func workC10Shared(w *run.W) {
 	type cs struct{ name, inplace, macro string }
 	var cases []cs
 	mk := func(name string, places []string, run string, closers bool) {
-		for _, before := range []bool{true, false} {
+		for _, where := range []int{0, 1, 2} {
+			before := where == 0
+			if where == 2 && strings.HasSuffix(places[0], "(\n") {
+				continue
+			}
 			var u, m strings.Builder
 			u.WriteString(head)
 			m.WriteString(head)
@@ -339,18 +343,24 @@ func workC10Shared(w *run.W) {
 			if before {
 				m.WriteString(def)
 			}
-			for _, p := range places {
+			for pi, p := range places {
 				u.WriteString(p + run)
+				if where == 2 && pi == 0 {
+					// the definition is written between the line of the first parent and what is pasted under it: a MACRO
+					// definition contributes nothing wherever it stands, the PASTE still lands in that parent
+					m.WriteString(p + def + "  PASTE @shared\n")
+					continue
+				}
 				m.WriteString(p + "  PASTE @shared\n")
 				if strings.HasSuffix(p, "(\n") {
 					u.WriteString(")\n")
 					m.WriteString(")\n")
 				}
 			}
-			if !before {
+			if where == 1 {
 				m.WriteString(def)
 			}
-			cases = append(cases, cs{fmt.Sprintf("%s/def-before=%v", name, before), u.String(), m.String()})
+			cases = append(cases, cs{fmt.Sprintf("%s/def-%s", name, []string{"before", "after", "inside-first-parent"}[where]), u.String(), m.String()})
 		}
 	}
 	for ri, r := range runs {
